@@ -1,6 +1,7 @@
 import Tea.Driver.Util
 import Tea.Input.Reader
 import Tea.Gen.KeyTable
+import Tea.Time.Model
 
 open Tea Tea.Driver Tea.Input
 
@@ -32,6 +33,15 @@ def stepReader (line : String) : String :=
     | .error e => s!"panic {e.toString}"
   | none => "bad-op"
 
+/-- `every`: `<unix-ns> <d-ns>` → the delay Every arms its timer with -/
+def stepEvery (line : String) : String :=
+  match words line with
+  | [a, b] =>
+    match a.toInt?, b.toInt? with
+    | some n, some d => toString (Tea.Time.everyDelay (n + Tea.Time.unixToZero) d)
+    | _, _ => "bad-op"
+  | _ => "bad-op"
+
 partial def loop (h : IO.FS.Stream) (out : IO.FS.Stream) (f : String → String) : IO Unit := do
   let line ← h.getLine
   if line.isEmpty then return ()
@@ -45,4 +55,5 @@ def main (args : List String) : IO UInt32 := do
   match args with
   | ["detect"] => loop stdin stdout stepDetect; return 0
   | ["reader"] => loop stdin stdout stepReader; return 0
+  | ["every"] => loop stdin stdout stepEvery; return 0
   | _ => IO.eprintln "usage: driver <stream>"; return 2
